@@ -429,32 +429,38 @@ structure Seen where
   content : List String
   wire : List String
   outcome : String          -- rate= … dkeep=  as observed
-  go : List String          -- the Go value tokens observed (all spans, all fields)
-  inexact : Bool            -- some JSON number was observed as a float64 other than the literal's value
+  spans : List SpanIn       -- the variant as sent (paths and wire encodings)
+  inexact : Bool            -- a JSON batch number in exponent spelling was observed as another float64 than it denotes
 
 structure MSt where
   inp : Inp := {}
   seen : List Seen := []
 
-def largeInt (t : String) : Option Int :=
-  -- `i:<n>` with |n| ≥ 10^6
-  if t.startsWith "i:" then
-    match (dropStr t 2).toInt? with
-    | some n => if n.natAbs ≥ 1000000 then some n else none
-    | none => none
-  else none
+/-- integers of magnitude ≥ 10^6 a variant carries in an integer encoding / in a float encoding -/
+def largeAs (spans : List SpanIn) (asInt : Bool) : List Int :=
+  spans.flatMap fun s => s.span.data.filterMap fun kw =>
+    let big (n : Int) (d : Nat) (isInt : Bool) : Option Int :=
+      if d == 1 && n.natAbs ≥ 1000000 && isInt == asInt then some n else none
+    match kw.2 with
+    | .mint n | .oint n => big n 1 true
+    | .muint n => big n 1 true
+    | .jnum _ n d | .mf64 n d | .mf32 n d | .odbl n d => big n d false
+    | _ => none
 
-/-- hazard classes present in a pair of variants (Go value tokens as observed) -/
-def hazard (a b : List String) (inexact : Bool) : Option String :=
-  let both := a ++ b
+def anyWire (spans : List SpanIn) (p : Path → Wire → Bool) : Bool :=
+  spans.any fun s => s.span.data.any fun kw => p s.span.path kw.2
+
+/-- The wire-encoding class a pair of variants differs by — decided from the *inputs* (which wire
+types were sent over which endpoint), so that an outcome difference between variants that only use
+encodings the partial theorem covers is never attributed to a known class. -/
+def hazard (a b : List SpanIn) (inexact : Bool) : Option String :=
+  let either (p : Path → Wire → Bool) := anyWire a p || anyWire b p
   if inexact then some "json-batch-number-parse"
-  else if both.any (·.startsWith "u:") then some "msgpack-uint-not-numeric"
-  else if both.any (·.startsWith "g:") then some "msgpack-float32-not-numeric"
-  else if both.any (·.startsWith "x:") then some "msgpack-bin-not-string"
+  else if either (fun _ w => match w with | .muint _ => true | _ => false) then some "msgpack-uint-not-numeric"
+  else if either (fun p w => match w with | .mf32 .. => p.entry == .msgpBatch | _ => false) then some "msgpack-float32-not-numeric"
+  else if either (fun p w => match w with | .mbin _ => p.entry == .msgpBatch | _ => false) then some "msgpack-bin-not-string"
   else
-    let pv (p q : List String) := p.any fun t => match largeInt t with
-      | some n => q.contains s!"f:{n}/1"
-      | none => false
+    let pv (p q : List SpanIn) := (largeAs p true).any fun n => (largeAs q false).contains n
     if pv a b || pv b a then some "percent-v-large-int" else none
 
 def outcomePart (obs : String) : String :=
@@ -470,14 +476,9 @@ def jsonInexact (spans : List SpanIn) (obs : String) : Bool :=
     (spans.zip (g.splitOn "|")).any fun (s, gs) =>
       (s.span.data.zip (gs.splitOn ",")).any fun (kw, tok) =>
         match kw.2 with
-        | .jnum _ n d => tok != s!"f:{n}/{d}"
+        | .jnum lit n d => s.span.path.entry == .jsonBatch && (lit.contains 'e' || lit.contains 'E') && tok != s!"f:{n}/{d}"
         | _ => false
   | none => false
-
-def goToks (obs : String) : List String :=
-  match kv (obs.splitOn " ") "g" with
-  | some g => if g == "-" then [] else (g.splitOn "|").flatMap fun s => if s.isEmpty then [] else s.splitOn ","
-  | none => []
 
 def encMon (m : MSt) (op : List String) (exts : List (List String)) (obs : Option String) : MSt × List Fail :=
   match applyInput m.inp op exts with
@@ -489,12 +490,12 @@ def encMon (m : MSt) (op : List String) (exts : List (List String)) (obs : Optio
       if !(o.startsWith "rate=") then (m, []) else
       let cur : Seen := { tid := (kv args "t").getD "", seed := (kv args "seed").getD "",
                           content := contentOf m.inp.spans, wire := wireContentOf m.inp.spans,
-                          outcome := outcomePart o, go := goToks o, inexact := jsonInexact m.inp.spans o }
+                          outcome := outcomePart o, spans := m.inp.spans, inexact := jsonInexact m.inp.spans o }
       let fails := m.seen.filterMap fun (p : Seen) =>
         if p.tid == cur.tid && p.seed == cur.seed && p.content == cur.content && p.outcome != cur.outcome then
           let sig :=
             if p.wire == cur.wire then "C09:order:permutation-changes-outcome"
-            else match hazard p.go cur.go (p.inexact || cur.inexact) with
+            else match hazard p.spans cur.spans (p.inexact || cur.inexact) with
               | some h => "C09:encoding:" ++ h
               | none => "C09:encoding:plain-encodings-differ"
           some { prop := "C09", sig := sig,
